@@ -20,6 +20,11 @@ def run(ctx):
         shared += [(t, a) for a in props]
     for t in gen.BIN_TEMP:
         shared += [(t, a, b) for a in rng.sample(props, 12) for b in rng.sample(props, 12)]
+    # and/or with three operands (one node, as the parsers build it for `a or b or c`): the checkers treat n-ary
+    # connectives in different code (CTL iterates the operands, the LTL tableau looks at the atoms)
+    nary = gen.nary_variants()
+    nary_shared = [(t, a) for t in gen.UN_TEMP for a in nary]
+    shared += nary_shared
     ctl = gen.levels(gen.ctl_ops(), 2, cap=400, rng=rng)
     ctl = ctl[0] + ctl[1] + ctl[2]
     pth = gen.levels(gen.path_ops(), 2, cap=300, rng=rng)
@@ -29,11 +34,12 @@ def run(ctx):
     cases = []
     for i, k in enumerate(ks):
         small = i < 148
-        cases.append((k, rng.sample(ctl, 12 if small else 8), rng.sample(shared, 10 if small else 6), rng.sample(ltl, 5 if small else 3)))
+        cases.append((k, rng.sample(ctl, 12 if small else 8), rng.sample(shared, 10 if small else 6) + rng.sample(nary_shared, 4 if small else 2),
+                      rng.sample(ltl, 5 if small else 3)))
     driver.run_cases(
         ctx, 'agreement-and-laws', 'vf.rtc.mc_rtc', 'check_laws_case', cases, chunk=2,
         rule='every total structure with <=2 states, %s 3-state and seeded random <=5-state structures x sampled formulas: A g over one temporal '
-             'operator with propositional operands through CTL, LTL, CTL* (object and text); CTL formulas through CTL and CTL*; LTL formulas through '
+             'operator with propositional operands (incl. and/or nodes with three operands) through CTL, LTL, CTL* (object and text); CTL formulas through CTL and CTL*; LTL formulas through '
              'LTL and CTL*; complement/intersection/union/implication laws, the five A/E dualities, and the expansion laws of EU, AU, AG, EG, EF, AF, ER '
              'on pairs (f, g); needs no reference implementation; distinct by (kind, K, formula)' % ('600' if thorough else '60'))
     return deductive.level_for(ctx, 'C04'), CMD
